@@ -7,6 +7,13 @@ into d, v, a as a cell (array identity, evaluated index, stored value).  The rul
 (temporaries, renamed locals, guard clauses, swapped arms, extracted or inlined helpers, module constants, np.matmul / np.negative,
 keyword arguments, loops <-> comprehensions, dispatch through a bound-method variable, set algebra on the option string) is not visible in it.
 
+Soundness of the negative conclusions ("no store of v on these rows is reached", "the rigid-body rows stay zero", "addconj is not reached", "a force
+never reaches the accumulation"): they are drawn only from a trace in which every write was followed.  `_untraced` lists what the evaluator
+could not follow on a path (stores through unknown values, arrays handed to code that is not followed, ...); a configuration with such an entry
+is unusable (analysis error).  A formula that fails an identity but mentions an atom the rule has no meaning for (a constant that could not be
+folded, an unmodelled call) is an analysis error as well (`_refutable`).  What a result array holds on given rows is the effect of all stores in
+order, whole-array updates (`v *= f`) included (`_content`, `_rb_state`).
+
 A test the configuration cannot decide (a test on solver state such as "is the full conjugate set present", inlined from SolveUnc._addconj) is
 taken both ways (`Run.paths`); the configuration is usable when the stores into d, v, a and the returned value are the same on every
 combination.  R9 reads the guard of the call of `addconj` wherever it lives, and the condition under which fsolve reaches it."""
@@ -321,7 +328,25 @@ def _run(ctx, famkey, m_none, extra=None, tag="", follow_state=False):
     return cache[k]
 
 
+def _crashes(ctx, traces, label):
+    """a name read on an evaluated path that no construct binds: the path ends in a NameError - a violation, reported once per rule and place"""
+    seen = ctx.__dict__.setdefault("_c02_failed", set())
+    hit = False
+    for tr in traces:
+        for node, f, name in tr.unbound:
+            hit = True
+            k = (ctx.rule, id(node), "unbound")
+            if k in seen:
+                continue
+            seen.add(k)
+            ctx.fail(f"{label}: every name read on the evaluated path is bound", node, f"`{name}` is read in {f} but nothing binds it: NameError on this path",
+                     key=f"C02|unbound name|{f}|{name}")
+    return hit
+
+
 def _usable(ctx, run):
+    if _crashes(ctx, [tr for _, tr in run.paths], run.label):
+        return False
     bad = run.problems()
     for node, msg in bad:
         ctx.error(msg, node)
@@ -405,6 +430,15 @@ def _zero(v):
     return v is not None and not is_unknown(v) and not isinstance(v, tuple) and need(v).is_zero()
 
 
+def _starts_zero(trace, ident, before=None):
+    """the array is all zeros before anything else is stored into it (before the clock `before`): created as zeros, or overwritten as a whole
+    with zeros by the first store it receives"""
+    if _zero(trace.init.get(ident)):
+        return True
+    cs = [c for c in trace.cells_of(ident) if before is None or c[4] < before]
+    return bool(cs) and cs[0][1] is None and _zero(cs[0][2])
+
+
 def _eq(a, b):
     if a is None or b is None or is_unknown(a) or is_unknown(b) or isinstance(a, tuple) or isinstance(b, tuple):
         return False
@@ -433,6 +467,18 @@ def r1_dynamic_stiffness(ctx):
             try:
                 if any(w[1] is None and w[4] > clk0 for w in run.cells_of("d")):
                     val = _content(run, "d", ix)          # the whole array is updated afterwards (`d *= f`): what the rows hold in the end
+                # the response at one frequency is computed from that frequency: no entry of a frequency-dependent vector picked at a fixed position
+                fixed = []
+                for base, jx in S.atoms_of(val, "idx"):
+                    if isinstance(base, str) or isinstance(jx, str):
+                        continue
+                    axis, sel = _unwrap_axis(jx)
+                    if sel is not None and not is_unknown(sel) and sel.is_const():
+                        syms = _symbols(S.erase_idx(base))
+                        if "freq" in syms or ("force" in syms and axis >= 1):
+                            fixed.append(f"{base!r}[{'..., ' if axis else ''}{sel!r}]")
+                ctx.check(not fixed, f"{run.label}: the displacement at each frequency is computed from that frequency and that column of the force (no fixed "
+                                     "entry of a frequency vector, no fixed column of the force)", node, None if not fixed else fixed)
                 V = S.erase_idx(val)
                 mm = F.const(1) if m_none else m
                 H = I * W * b + k - W * W * mm
@@ -551,8 +597,8 @@ def _content(run, letter, ix, before=None, depth=0):
     for c in run.trace.cells_of(ident):
         if before is not None and c[4] >= before:
             continue
-        if c[1] is None or (ix is not None and not is_unknown(c[1]) and _eq(c[1], ix)):
-            hit = c
+        if c[1] is None or (ix is not None and not is_unknown(c[1]) and (_eq(c[1], ix) or _eq(_row_selector(c[1]), ix))):
+            hit = c          # (the same rows, filled column by column for a generic column, are these rows)
     if hit is None:
         init = run.trace.init.get(ident)
         if _zero(init):
@@ -640,6 +686,10 @@ def r2_derivative_relations(ctx):
                         continue
                     # (an update of a whole array made afterwards - `v *= f`, `d[:] = ...` - changes what these rows hold)
                     later = [w for w in run.cells_of(which) if w[1] is None and w[4] > c[4]] + [w for w in run.cells_of("d") if w[1] is None and w[4] > max(dclk, c[4])]
+                    # (a read-back d[rows] in the value is the displacement only if it was stored before: otherwise the rows still held zeros)
+                    early = not any((w[1] is None or (c[1] is not None and not is_unknown(w[1]) and (_eq(w[1], c[1]) or _eq(_row_selector(w[1]), c[1]))))
+                                    and w[4] < c[4] for w in run.cells_of("d"))
+                    later = later or early
                     ok = not later and any(_eq(val, factor * D) for D in _d_candidates(run, c[1], c[4]))
                     if not ok and not later:
                         # written through another stored response (a = i W v): compare with every read-back resolved
@@ -657,7 +707,7 @@ def r2_derivative_relations(ctx):
                                 val = got
                         except Unsupported:
                             ok = False
-                    at = max(later, key=lambda w: w[4])[3] if later and not ok else c[3]
+                    at = max(later, key=lambda w: w[4])[3] if isinstance(later, list) and later and not ok else c[3]
                     if not _refutable(ctx, run, ok, f"{run.label}: {txt}", at, val):
                         continue
                     _check_once(ctx, ok, f"{run.label}: {txt} on the rows `{S.sym_name(ix) or repr(ix)}` ({'residual-flexibility' if p == 'RF' else 'dynamic'} equations), "
@@ -688,6 +738,8 @@ def r2_derivative_relations(ctx):
                 ui = unfn(ix) if ix is not None and not is_unknown(ix) else None
                 if B is not None and B in tr.idents:
                     fills = [c for c in tr.cells_of(B) if c[4] < clk]
+                    if len(fills) > 1 and fills[0][1] is None and _zero(fills[0][2]):
+                        fills = fills[1:]          # (cleared as a whole first: that is how it "starts as zeros", checked below)
                 elif ui is not None and ui[0] == "tuple" and len(ui[1]) == 2 and not any(isinstance(z, str) for z in ui[1]) and not is_unknown(val) \
                         and not isinstance(val, tuple):
                     # written in place: {which}[rb, selection] = ...   (the pairing of the two selectors is the typing rule's business)
@@ -728,9 +780,11 @@ def r2_derivative_relations(ctx):
                     if (ax2 == 0) != freq_only:
                         bad.append(f"`{base!r}` is restricted along axis {ax2}")
                 ok = axis >= 1 and not bad
+                if not _refutable(ctx, run, ok, f"{run.label}: rigid-body {which} write", f0[3], f0[2]):
+                    continue
                 _check_once(ctx, ok, f"{run.label}: the rigid-body {which} write is restricted to the non-zero frequencies on both sides (columns of the response, "
                                      "entries of the frequency vector)", f0[3], None if ok else bad or f"target axis {axis}", tag=("rbaxis", which))
-                ok = _zero(tr.init.get(B))
+                ok = _starts_zero(tr, B, f0[4])
                 ctx.check(ok, f"{run.label}: the rigid-body {which} starts as zeros, so the 0 Hz entries stay zero", node, None if ok else repr(tr.init.get(B)))
     _returned_solution(ctx)
 
@@ -764,7 +818,7 @@ def _returned_solution(ctx):
             continue
         ids = run.ids
         inits = [run.trace.init.get(ids[x]) for x in "dva"]
-        ok = len(set(ids.values())) == 3 and all(_zero(v) for v in inits)
+        ok = len(set(ids.values())) == 3 and all(_starts_zero(run.trace, ids[x]) for x in "dva")
         ctx.check(ok, f"{solver}.fsolve: the fields d, v, a of the returned solution are three distinct arrays that start as zeros (rows no rule above fills stay zero)",
                   run.fn, None if ok else {"arrays": ids, "created from": [repr(v) for v in inits]})
 
@@ -981,6 +1035,8 @@ def _psd_paths(ctx, fn):
 
 def _psd_untraced(ctx, paths):
     """solvepsd: a write the evaluated paths may make that is not in their trace, a statement that is not lowered: no verdict (analysis error)"""
+    if _crashes(ctx, [tr for _, tr in paths], "solvepsd"):
+        return True
     seen, bad = set(), []
     for _, tr in paths:
         bad.extend(_untraced(tr, "solvepsd", seen))
@@ -1216,9 +1272,20 @@ def r6_paired_advanced_indices(ctx):
                     continue
                 n += 1
                 guarded = False
+                flags = {"self.slices"} | {st.targets[0].id for st in ast.walk(fn) if isinstance(st, ast.Assign) and len(st.targets) == 1
+                                          and isinstance(st.targets[0], ast.Name) and dotted(st.value) == "self.slices"
+                                          and sum(1 for z in ast.walk(fn) if isinstance(z, ast.Name) and isinstance(z.ctx, ast.Store) and z.id == st.targets[0].id) == 1}
                 for a in ancestors(sub):
-                    if isinstance(a, ast.If) and ast.unparse(a.test).replace(" ", "") == "self.slices" and \
-                            any(sub is y for x in a.body for y in ast.walk(x)):
+                    if not isinstance(a, (ast.If, ast.IfExp)):
+                        continue
+                    t, neg = a.test, False
+                    while isinstance(t, ast.UnaryOp) and isinstance(t.op, ast.Not):
+                        t, neg = t.operand, not neg
+                    if dotted(t) not in flags:
+                        continue
+                    arm = a.orelse if neg else a.body          # the arm that is taken when the partitions are slices
+                    arm = arm if isinstance(arm, list) else [arm]
+                    if any(sub is y for x in arm for y in ast.walk(x)):
                         guarded = True
                 ctx.check(guarded, f"{q}: `{ast.unparse(sub)}` combines two array-valued indices only where the partitions are known to be slices", sub,
                           None if guarded else "a partition vector is an index array when rb/el/rf modes are interleaved; numpy then pairs the two index "
@@ -1564,7 +1631,7 @@ def _reached_when(paths, names):
 
 RULES = [
     ("C02-R6", r6_paired_advanced_indices, 2),
-    ("C02-R1", r1_dynamic_stiffness, 12),
+    ("C02-R1", r1_dynamic_stiffness, 20),
     ("C02-R2", r2_derivative_relations, 80),
     ("C02-R3", r3_option_gating, 60),
     ("C02-R4", r4_partition_typing, 100),
